@@ -336,6 +336,27 @@ def run(E: Engine, rep: Report, tier: str) -> dict:
     resampled = r_v is not None and any(t[0] == "call" and t[1][0] == "attr" and t[1][2] == "change_duration" for t in _sym.subterms(r_v))
     rep.check(not resampled or r_v in validated, "PASS", "Sequence._validate_and_adjust_pulse|re-sampled-pulse-validated", "the returned (possibly re-sampled) pulse is an argument of validate_pulse",
               f"_validate_and_adjust_pulse validates {[_sh9(v_, 40) for v_ in validated]} but returns `{_sh9(r_v, 80)}`, whose waveforms were re-sampled with change_duration: the pulse that is scheduled can exceed max_amp, fall below min_avg_amp or hold non-finite samples although the pulse as given passed", E.where(vap))
+    # ... and it is validated whenever it was re-sampled: the second validation runs under the very condition that
+    #     selects change_duration (or unconditionally), not under a test that can never hold
+    base_c = None
+    for l in Sv.log:
+        if l.kind == "call" and l.value[1][0] == "attr" and l.value[1][2] == "validate_pulse" and l.value[2] and _un9(l.value[2][0]) == ("name", "pulse"):
+            base_c = set(_sym.conj_of(l.cond)) if base_c is None else base_c & set(_sym.conj_of(l.cond))
+    for l in Sv.log:
+        if not (l.kind == "call" and l.value[1][0] == "attr" and l.value[1][2] == "validate_pulse" and l.value[2]):
+            continue
+        a9 = _un9(l.value[2][0])
+        cd = lambda t: any(x[0] == "call" and x[1][0] == "attr" and x[1][2] == "change_duration" for x in _sym.subterms(t))
+        if not cd(a9) or base_c is None:
+            continue
+        allowed = set()
+        for t in _sym.subterms(a9):
+            if t[0] == "ifexp" and cd(t[2]) != cd(t[3]):
+                allowed |= set(_sym.conj_of(t[1] if cd(t[2]) else _sym.mk_not(t[1])))
+        extra = set(_sym.conj_of(l.cond)) - base_c - allowed
+        extra = {x for x in extra if not any(x in set(_sym.conj_of(l2.cond)) for l2 in Sv.log if l2.kind == "call" and l2.value[1][0] == "attr" and l2.value[1][2] == "validate_pulse" and l2.value[2] and _un9(l2.value[2][0]) == ("name", "pulse"))}
+        rep.check(not extra, "PASS", "Sequence._validate_and_adjust_pulse|re-sampled-pulse-validated-whenever-re-sampled", "validate_pulse(new_pulse) runs under the condition that selects change_duration",
+                  f"the re-sampled pulse is validated only under `{' and '.join(_sh9(x, 80) for x in sorted(extra, key=str))}`, which is not the condition under which the waveforms are re-sampled: when the test does not hold (it compares the adjusted duration with the duration of the already adjusted pulse) the pulse that is scheduled is never validated", E.where(vap, l.node))
     rep.floor("PASS", 15)
 
     # ----------------------------------------------------------- GUARD
